@@ -587,11 +587,13 @@ func Run(input string, paced bool) (string, error) {
 				// RpcServer.ControlEnvironment looks the environment up first
 				rerr = lerr
 			} else {
-				// the ControlEnvironment glue of core/server.go, line for line
+				// the ControlEnvironment glue of core/server.go, line for line; the condition under which the
+				// state is forced is the one written in the tree under test (glue.go reads it from the source):
+				//   goErr != nil                                     before "fix: ControlEnvironment does not force ERROR on an environment that is DONE"
+				//   goErr != nil && env.CurrentState() != "DONE"     since
 				rerr = env.TryTransition(mk())
 				if rerr != nil {
-					err2 := env.TryTransition(environment.NewGoErrorTransition(taskman))
-					if err2 != nil {
+					if goErr := env.TryTransition(environment.NewGoErrorTransition(taskman)); goErr != nil && !glueSpares(env.CurrentState()) {
 						env.Sm.SetState("ERROR")
 					}
 				}
